@@ -182,3 +182,49 @@ def rt_misc(i: int, thr: int, proto: int) -> bool:
     finally:
         if ch_env.MODE == 'real':
             ch_env.cleanup_real(root)
+
+
+JSON_VALS = [None, True, False, 0, -1, 2 ** 63, -2 ** 70, 1.5, -0.0, 1e308, '', 'a', '\r\n', '\x00', '\u2028\x85', '\U0001f600', [], [1, [2, [None]]], {}, {'k': [1, {'z': 'y'}]},
+             'x' * 40, list(range(12)), {'a' * 9: 'b' * 9}]
+
+
+def rt_json(i: int, thr: int, level: int) -> bool:
+    """
+    pre: 0 <= i < 23 and 0 <= thr <= 64 and 0 <= level <= 2
+    post: _
+    """
+    # JSONDisk: every JSON-representable value comes back equal and of the same type, as value (in the database or in a file,
+    # on both sides of the threshold, which applies to the compressed size) and as key, for every compression level
+    v = pick(JSON_VALS, i)
+    core, fs, root = ch_env.setup()
+    try:
+        d = core.JSONDisk(root, compress_level=pick([0, 1, 9], level), min_file_size=thr, pickle_protocol=4)
+        size, mode, fn, out = _roundtrip(core, d, v)
+        ok = type(out) is type(v) and out == v and repr(out) == repr(v)
+        dbk, raw = d.put(v)
+        k2 = d.get(ch_env.sqlite_value_roundtrip(dbk), raw)
+        ok = ok and type(k2) is type(v) and k2 == v and repr(k2) == repr(v)
+        if fn is not None:
+            ok = ok and size == len(fs.files[root + '/' + fn])
+        return ok
+    finally:
+        if ch_env.MODE == 'real':
+            ch_env.cleanup_real(root)
+
+
+def json_keys_distinct(i: int, j: int) -> bool:
+    """
+    pre: 0 <= i < 23 and 0 <= j < 23 and i != j
+    post: _
+    """
+    # two different JSON values never serialize to the same database key (no aliasing through JSONDisk.put)
+    a, b = pick(JSON_VALS, i), pick(JSON_VALS, j)
+    core, fs, root = ch_env.setup()
+    try:
+        d = core.JSONDisk(root, compress_level=1)
+        ka, kb = d.put(a), d.put(b)
+        same_value = (a == b and type(a) is type(b))
+        return same_value or (bytes(ka[0]), ka[1]) != (bytes(kb[0]), kb[1])
+    finally:
+        if ch_env.MODE == 'real':
+            ch_env.cleanup_real(root)
